@@ -68,6 +68,29 @@ pub(crate) mod k {
         assert!(w0 == 16.0 && h0 == 32.0, "empty drawing: two-cell canvas");
     }
 
+    /// N3 (C12): margin lemma - whatever is drawn inside an occupied cell lies inside the canvas,
+    /// with at least one cell of margin to the right and below
+    #[kani::proof]
+    #[kani::stub(crate::buffer::cell_buffer::CellBuffer::bounds, stub_cellbuffer_bounds)]
+    #[kani::solver(kissat)]
+    pub(crate) fn check_canvas_margin() {
+        let hi: (i32, i32) = kani::any();
+        let c: (i32, i32) = kani::any();
+        kani::assume(hi.0 >= 0 && hi.1 >= 0 && hi.0 < 4096 && hi.1 < 4096);
+        kani::assume(c.0 >= 0 && c.1 >= 0 && c.0 <= hi.0 && c.1 <= hi.1);
+        // a lattice point of the occupied cell c (sub-cell offsets 0..=4 / 0..=8 quarter units)
+        let (i, j): (u8, u8) = (kani::any(), kani::any());
+        kani::assume(i <= 4 && j <= 8);
+        let scale_sel: u8 = kani::any();
+        let scale = match scale_sel % 4 { 0 => 0.5, 1 => 8.0, 2 => 10.0, _ => 37.5 };
+        unsafe { BOUNDS = Some(((0, 0), hi)) };
+        kani::cover!(true);
+        let cb = CellBuffer::new();
+        let (w, h) = cb.get_size(&settings_with_scale(scale));
+        let p = Cell::new(c.0, c.1).absolute_position(crate::buffer::CellGrid::point(i as usize, j as usize)).scale(scale);
+        assert!(p.x >= 0.0 && p.y >= 0.0 && p.x <= w - scale && p.y <= h - 2.0 * scale, "inside the canvas with one cell of margin");
+    }
+
     /// C17: the cell filter - a character becomes a cell iff it is neither NUL nor whitespace,
     /// for every char (the predicate `From<StringBuffer>` applies)
     #[kani::proof]
@@ -211,7 +234,7 @@ pub(crate) mod k18 {
 #[cfg(all(svgbob_verif, test))]
 pub(crate) mod b {
     use super::*;
-    use crate::fragment::{self, Fragment};
+    use crate::fragment::{self, Bounds, Fragment};
     use crate::Point;
     use sauron::vdom::Value;
 
@@ -364,6 +387,7 @@ pub(crate) mod b {
                         Some(t) => {
                             let un = unescape(t);
                             t.chars().all(crate::__verif::h::xml_char)
+                                && !t.contains("]]>")   // not allowed in XML character data
                                 && match un {
                                     // everything XML can represent survives the round trip
                                     Some(u) => {
@@ -391,12 +415,14 @@ pub(crate) mod b {
         let names = ["a", "b1", "_x"];
         let decls = ["fill:red", "", "stroke: blue;\nfill: none", "f:\"q\""];
         let mut n = 0u64;
-        for k in 0..4usize {
+        for k in 0..5usize {
             for i in 0..names.len() {
                 for j in 0..decls.len() {
                     let mut cb = CellBuffer::new();
+                    // every second list repeats a name: an entry is a rule of its own even then
+                    let step = if (i + j) % 2 == 0 { 1 } else { 2 };
                     let entries: Vec<(String, String)> =
-                        (0..k).map(|e| (names[(i + e) % 3].to_string(), decls[(j + e) % 4].to_string())).collect();
+                        (0..k).map(|e| (names[(i + e * step) % 3].to_string(), decls[(j + e) % 4].to_string())).collect();
                     cb.add_css_styles(entries.clone());
                     let want = entries.iter().map(|(c, d)| format!(".svgbob .{}{{ {} }}", c, d)).collect::<Vec<_>>().join("\n");
                     if cb.legend_css() != want {
@@ -556,5 +582,98 @@ pub(crate) mod b {
             }
         }
         println!("BOUNDED-CASES {}", n);
+    }
+
+    /// N2 (C12): bounds of the cell map = per-axis min / max of the occupied cells, None iff empty
+    #[test]
+    fn bounded_cellbuffer_bounds() {
+        let mut n = 0u64;
+        assert!(CellBuffer::new().bounds().is_none() && CellBuffer::from("  \n \n").bounds().is_none(), "empty drawing has no bounds");
+        let cells = [(0, 0), (3, 1), (1, 4), (7, 2), (2, 2)];
+        for subset in 1..32u32 {
+            let mut cb = CellBuffer::new();
+            let mut xs = vec![];
+            let mut ys = vec![];
+            for (k, (x, y)) in cells.iter().enumerate() {
+                if subset & (1 << k) != 0 {
+                    cb.insert(Cell::new(*x, *y), 'x');
+                    xs.push(*x);
+                    ys.push(*y);
+                }
+            }
+            let want = Some((Cell::new(*xs.iter().min().unwrap(), *ys.iter().min().unwrap()), Cell::new(*xs.iter().max().unwrap(), *ys.iter().max().unwrap())));
+            if cb.bounds() != want {
+                println!("BOUNDED-WITNESS bounds of cells {:?} {:?}: {:?}", xs, ys, cb.bounds());
+                panic!("bounds = per-axis min/max");
+            }
+            n += 1;
+        }
+        println!("BOUNDED-CASES {}", n);
+    }
+
+    /// WITNESS of a known finding (C12): quoted text is kept outside the cell map, so the canvas does not
+    /// grow for it.  Fails while the defect is present (pinned by the repository's own test `escaped_shape`).
+    #[test]
+    fn witness_quoted_text_outside_canvas() {
+        let cb = CellBuffer::from("\"ab\"");
+        let st = Settings::default();
+        let (w, _h) = cb.get_size(&st);
+        let (frags, _) = cb.get_fragment_spans();
+        for f in frags {
+            // bounds in cells first, then scaled (Text::bounds after scaling mixes scaled and unscaled lengths)
+            let (lo, hi) = f.fragment.bounds();
+            let (lo, hi) = (lo.scale(st.scale), hi.scale(st.scale));
+            if hi.x > w || lo.x < 0.0 {
+                println!("BOUNDED-WITNESS input \"ab\" in quotes: text spans x {}..{} on a canvas {} wide", lo.x, hi.x, w);
+                panic!("quoted text lies outside the canvas");
+            }
+        }
+    }
+
+    /// the complement of the known finding: text that comes from the cell map lies inside the canvas
+    #[test]
+    fn bounded_plain_text_inside_canvas() {
+        let tokens = ['a', 'é', '一', ' ', '-'];
+        let mut n = 0u64;
+        for r in words(&tokens, 5) {
+            for second in ["", "      z"] {
+                let text = format!("{}\n{}\n", r, second);
+                let cb = CellBuffer::from(text.as_str());
+                for scale in [0.5f32, 8.0, 37.5] {
+                    let st = Settings { scale, ..Settings::default() };
+                    let (w, h) = cb.get_size(&st);
+                    let (frags, _) = cb.get_fragment_spans();
+                    for f in frags {
+                        let (lo, hi) = f.fragment.bounds();
+                        let (lo, hi) = (lo.scale(scale), hi.scale(scale));
+                        if lo.x < 0.0 || lo.y < 0.0 || hi.x > w || hi.y > h {
+                            println!("BOUNDED-WITNESS {:?} at scale {}: {:?} spans ({},{})..({},{}) on a {}x{} canvas", text, scale, f.fragment, lo.x, lo.y, hi.x, hi.y, w, h);
+                            panic!("everything drawn from the cell map lies inside the canvas");
+                        }
+                    }
+                }
+                n += 1;
+            }
+        }
+        println!("BOUNDED-CASES {}", n);
+    }
+
+    /// WITNESS of a known finding (C11): whether a tag next to the right border styles its box depends on the
+    /// scale, because `Text::bounds` adds an unscaled width to a scaled anchor.  Fails while the defect is present.
+    #[test]
+    fn witness_tag_class_depends_on_scale() {
+        let cb = CellBuffer::from("+---+\n|{a}|\n+---+\n");
+        let count = |scale: f32| {
+            let st = Settings { scale, ..Settings::for_debug() };
+            let (node, _, _): (Node<()>, f32, f32) = cb.get_node_with_size(&st);
+            let mut out = String::new();
+            node.render(&mut out).unwrap();
+            (out.matches("<text").count(), out.contains("nofill a"))
+        };
+        let (a, b) = (count(0.5), count(8.0));
+        if a != b {
+            println!("BOUNDED-WITNESS box '|{{a}}|': at scale 0.5 (text elements, class applied) = {:?}, at scale 8 = {:?}", a, b);
+            panic!("the scale must not change element kinds or classes");
+        }
     }
 }
